@@ -8,8 +8,8 @@ BOUNDS = {'quick': {'delegations': '1..2', 'magnitudes': '<= 1e18 on the *total*
           'thorough': {'delegations': '1..3'}}
 ASSUMPTIONS = ['E1 (total booked stake <= 1e18), E3, E4', 'the hub has at least one delegation entry (an empty delegation '
                'list is the excluded "validator set slashed to zero / nothing ever delegated" case)']
-OUTSIDE = ['loss spread over batches released together (unbonding slashing) is decided under C01 obligations '
-           '"pro_rata_*"', 'more delegation entries than the bound (only their sum enters the computation)']
+OUTSIDE = ['how one token side\'s loss is divided between several batches of that side (the rate kernel calculate_new_withdraw_rate) is decided by '
+           'C01 kernel_new_withdraw_rate / release_*', 'more delegation entries than the bound (only their sum enters the computation)']
 
 OPS6 = ['check_slashing', 'bond', 'bond_stsei', 'unbond_bsei', 'unbond_stsei', 'convert_bsei', 'convert_stsei']
 
@@ -57,11 +57,29 @@ OBLIGATIONS.append(('check_slashing_d2', mk('check_slashing', 2)))
 OBLIGATIONS.append(('check_slashing_d3', mk('check_slashing', 3)))
 
 
+def _unbonding_slash(k, light):
+    """loss on stake slashed while unbonding: each token side of the batches released together is charged its own part
+    (world and claims of C01's release obligation, restricted to the per-token-type claims)"""
+    def ob(ctx):
+        from checks.c01 import ob_release
+        keys = {'release:per_token_s', 'release:per_token_b', 'release:per_token_calls'} | (set() if light else {'release:conservation'})
+        return ob_release(k, 0, real_kernel=not light, light=light, only=keys)(ctx)
+    return ob
+
+
+OBLIGATIONS.append(('unbonding_slash_k1', _unbonding_slash(1, False)))
+OBLIGATIONS.append(('unbonding_slash_k2', _unbonding_slash(2, True)))
+
+
 def tier_filter(name, tier):
     return tier == 'thorough' or not name.endswith('_d3')
 
 
 def replay_any(v, run_scenario):
+    if (v.get('key') or '').startswith('release:'):
+        from smir.replay import generic_replay
+        import checks.c01 as c1
+        return generic_replay(c1)(v, run_scenario)
     m = v['model']
     op = (v.get('key') or '').split(':')[0]
     scn = hub_scenario(m, op)
